@@ -348,6 +348,24 @@ func (fc *FuncCtx) uniq(kind string, v ssa.Value) string {
 }
 
 func (fc *FuncCtx) ap0(v ssa.Value) string {
+	// a field of a struct parameter whose argument, at the call this context was entered through, is a literal the caller
+	// built (a parameter object): the value the caller stored into that field
+	if fc.parent != nil {
+		switch v.(type) {
+		case *ssa.Field, *ssa.UnOp:
+			if prm, path, ok := fieldChainOf(fc.Fn, v); ok && len(path) > 0 && unexportedStruct(prm.Type()) != nil {
+				if av := fc.argVal[prm]; av != nil {
+					if ld, ok := av.(*ssa.UnOp); ok && ld.Op == token.MUL {
+						if _, isLocal := ld.X.(*ssa.Alloc); isLocal {
+							if val := literalFieldValue(ld.X, path, 0); val != nil {
+								return fc.parent.AP(val)
+							}
+						}
+					}
+				}
+			}
+		}
+	}
 	switch x := v.(type) {
 	case *ssa.Parameter, *ssa.FreeVar:
 		return fc.rootName(v)
